@@ -100,11 +100,13 @@ def ClauseExactlyOnce (side : ∀ (δ ε : Type), Timer δ ε → Entry ε → L
      ∃ d ∈ (t.run ops).wake.log, d.entry = e ∧ d.viaTimer = true)
 
 /-- (c) `<cancel sendid=id>`: exactly the pending entries sent with `id` disappear, nothing is
-delivered, every other entry stays; it is never delivered later. -/
+delivered, every other entry stays, the guards registered under other ids stay; the cancelled
+entries are never delivered later. -/
 def ClauseCancel : Prop :=
   ∀ (δ ε : Type) (t : Timer δ ε), Reachable t → t.alive = true → ∀ (id : SendId),
     (t.cancel id).pending = t.pending.filter (fun e => e.sendid ≠ some id) ∧
     (t.cancel id).log = t.log ∧
+    (∀ id', id' ≠ id → lookupId id' (t.cancel id).delayed = lookupId id' t.delayed) ∧
     ∀ (ops : List (Op δ ε)), ∀ e ∈ t.pending, e.sendid = some id →
       ∀ d ∈ ((t.cancel id).run ops).log, d.entry.seq ≠ e.seq
 
@@ -316,7 +318,14 @@ theorem C16_cancel : ClauseCancel := by
         simp [hs, Option.some.inj this]
       · have : e.seq ≠ g := fun hc => hs (hw.gid id g hg e he hc)
         simp [hs, this]
-  refine ⟨hpl.1, hpl.2, ?_⟩
+  have hother : ∀ id', id' ≠ id → lookupId id' (t.cancel id).delayed = lookupId id' t.delayed := by
+    intro id' hne
+    unfold Timer.cancel
+    rw [if_neg (by simp [halive])]
+    split
+    · rfl
+    · exact lookupId_removeId_ne hne _
+  refine ⟨hpl.1, hpl.2, hother, ?_⟩
   intro ops e he hs d hd hseq
   have hfr := (Frame.run (t.cancel id) ops).log d hd
   have hwc := hw.cancel id
